@@ -34,8 +34,9 @@ import (
 )
 
 const (
-	watchdog  = 45 * time.Second // a response missing this long triggers the hang procedure
-	hangBound = 60 * time.Second // bound for the single request on a fresh idle node
+	watchdog  = 90 * time.Second  // a response missing this long triggers the hang procedure
+	hangBound = 120 * time.Second // bound for the single request on a fresh idle node (>= 500x the median request cost)
+	slowBound = 60 * time.Second  // bound for the dedicated decimal-exponent probe
 )
 
 type harness struct {
@@ -553,7 +554,7 @@ func (h *harness) slowProbe(done chan struct{}) {
 	}
 	ladder := map[string]string{}
 	for _, e := range []string{"1e5000", "1e100000", "1e1000000"} {
-		resp := apifix.Do(n.addr, mk(e), hangBound)
+		resp := apifix.Do(n.addr, mk(e), slowBound)
 		ladder[e] = fmt.Sprintf("%v status=%d %s", resp.Dur.Round(time.Millisecond), resp.Status, resp.Fail)
 	}
 	r.Extra("decimal_exponent_ladder (POST /api/v2/transaction, to[0].coins)", ladder)
@@ -587,7 +588,7 @@ func (h *harness) slowProbe(done chan struct{}) {
 			}
 		}
 	}()
-	resp := apifix.Do(n.addr, q, hangBound)
+	resp := apifix.Do(n.addr, q, slowBound)
 	close(stopWatch)
 	wg.Wait()
 	r.Count("slow_probe_runs", 1)
@@ -595,7 +596,7 @@ func (h *harness) slowProbe(done chan struct{}) {
 	if resp.Fail == "" {
 		return // answered within the bound
 	}
-	attrs := map[string]string{"route": "/api/v2/transaction", "method": "POST", "world": "main", "param": "to.coins", "value_class": "decimal-exponent-2e9", "bound_s": fmt.Sprint(int(hangBound.Seconds())), "peak_rss_mb_over_3000": fmt.Sprint(killed)}
+	attrs := map[string]string{"route": "/api/v2/transaction", "method": "POST", "world": "main", "param": "to.coins", "value_class": "decimal-exponent-2e9", "bound_s": fmt.Sprint(int(slowBound.Seconds())), "peak_rss_mb_over_3000": fmt.Sprint(killed)}
 	if !killed {
 		n.proc.DumpGoroutines()
 		dump := string(n.proc.Stderr())
@@ -656,7 +657,7 @@ func main() {
 
 	perJob := r.Pick(2500, 8000)
 	var jobs []job
-	nMain, nGen := r.Pick(9, 56), r.Pick(3, 16)
+	nMain, nGen := r.Pick(9, 36), r.Pick(3, 12)
 	for i := 0; i < nMain; i++ {
 		jobs = append(jobs, job{World: "main", Index: i, N: perJob, CSRF: i%8 == 7, Slow: !r.Quick() && i == 1})
 	}
@@ -699,13 +700,13 @@ func main() {
 	h.seenMu.Unlock()
 	r.Count("panics", r.Get("observed.panic"))
 
-	r.Floor("requests", int64(r.Pick(25000, 500000)))
-	r.Floor("requests.world_genesis", int64(r.Pick(5000, 100000)))
+	r.Floor("requests", int64(r.Pick(25000, 350000)))
+	r.Floor("requests.world_genesis", int64(r.Pick(5000, 80000)))
 	r.Floor("endpoints_requested", int64(total))
 	r.Floor("endpoints_with_200_answer", int64(total-8))
 	r.Floor("min_requests_per_endpoint", int64(r.Pick(20, 100)))
-	r.Floor("origin.grammar", int64(r.Pick(10000, 200000)))
-	r.Floor("origin.mutation", int64(r.Pick(3000, 60000)))
+	r.Floor("origin.grammar", int64(r.Pick(10000, 150000)))
+	r.Floor("origin.mutation", int64(r.Pick(3000, 50000)))
 	r.Floor("jobs.csrf_on", 1)
 	r.Floor("slow_probe_runs", 1)
 	r.Floor("status.200", 5000)
@@ -714,7 +715,7 @@ func main() {
 	r.Finish("per node instance: the minimal valid request of every endpoint, then a seeded stream of grammar-generated requests (typed dictionaries per documented parameter: valid / unknown / boundary / malformed), mutations of earlier successful requests and syntactically valid junk; two prepared nodes (30-block chain with pool and wallets; height 0 with a pooled transaction); non-trivial = distinct (method, route, status, answer shape)",
 		"decimal exponents in the stream are capped at |e| <= 5000; one dedicated probe per run sends 1e2000000000 alone to an idle node against a 60 s bound with a 3 GiB memory guard",
 		"cost-proportional count parameters (wallet newAddress num, scan) only take small or unparsable values, and encrypting an unencrypted wallet (default scrypt N=2^20, ~1 GiB per call) is exercised on one node in the thorough tier only: heavy but legitimate work is not judged",
-		"a watchdog (45 s without answer) never decides by itself: the single request must reproduce on a fresh idle node against 60 s",
+		"a watchdog (90 s without answer) never decides by itself: the single request must reproduce on a fresh idle node against 120 s",
 		"JSON well-formedness is required of 200 answers only (README: error bodies may not be JSON)",
 		"nodes are assembled by lib/node like skycoin.Coin.Run; MaxLastBlocksCount is 0 there, so /api/v1/last_blocks only answers for num=0")
 }
